@@ -20,7 +20,7 @@ import (
 	"github.com/go-task/task/v3/verifh/h"
 )
 
-const rule = "corpus: every testdata/**/Taskfile*.y*ml of the repository (with the files around it), the yaml code blocks of website/docs, and generated Taskfiles that use every schema key. inputs (a function of VERIF_SEED and the index): the corpus unchanged, then mutants: 1-3 structure-aware mutations on the yaml.Node tree (replace any node by scalar/sequence/mapping/null/{}/[]/tagged scalar; rename/duplicate/drop/swap keys; insert a schema key with a value of random shape; numbers<->strings, huge ints; deep nesting; anchor+alias), task names over the C15 alphabet, shell-word hostile strings (comments = zero words, unterminated quotes/substitutions, tilde forms, glob and brace fragments, operators, blanks, line continuations, invalid UTF-8 in brackets; literally or through a template variable) in every field that is shell-expanded, globbed or run (task dir, include taskfile/dir, sources/generates, dotenv, status/preconditions/cmds, sh: variables), include locations (.git URLs with/without //, http(s)://, empty, directories, self, ~, $VAR, templates), and/or 1-2 lexical mutations (CR, CRLF, NEL, LS/PS, mixed terminators, BOM, UTF-16, tabs, NUL, invalid UTF-8, truncation, splice of another corpus file, line duplication/deletion, indentation, punctuation, byte flips), synthetic pathological documents (20000-deep flow collections, alias expansion, anchor cycles, 1 MiB scalars, 2000-task dependency ring); 1 in 8 mutants is placed as the included file of a sane root. channel inproc: every input goes through a child process that links the repository (yaml.Unmarshal into ast.Taskfile, Executor.Setup, ListTasks plain+JSON, ListTaskNames, NAME=value assignments, GetTask/FastCompiledTask/CompiledTask for every task and generated request, Run with Dry) and journals '<input>:<stage>' before each call; a dead child is a violation attributed to the journal's last entry and the parent restarts after it. channel cli: the first inputs also go to the rebuilt CLI in 6 invocations (--list-all, --list-all --json, <name>, --summary <name>, --dry <name>, one of the three with a generated request; NAME=value arguments added) under ulimit -v/-t with an empty PATH. violation: Go panic / fatal error / signal, exit status outside {0,1,50,100-110,200-207}, CPU limit (CPU time, not wall clock), memory limit, non-zero exit without any diagnostic. wall-clock watchdog = inconclusive. A case is one (input, invocation); non-trivial = the input is a mutant (differs from every corpus file) ; distinct by hash(project files, invocation)."
+const rule = "corpus: every testdata/**/Taskfile*.y*ml of the repository (with the files around it), the yaml code blocks of website/docs, and generated Taskfiles that use every schema key. inputs (a function of VERIF_SEED and the index): the corpus unchanged, then mutants: 1-3 structure-aware mutations on the yaml.Node tree (replace any node by scalar/sequence/mapping/null/{}/[]/tagged scalar; rename/duplicate/drop/swap keys; insert a schema key with a value of random shape; numbers<->strings, huge ints; deep nesting; anchor+alias), task names over the C15 alphabet, shell-word hostile strings (comments = zero words, unterminated quotes/substitutions, tilde forms, glob and brace fragments, operators, blanks, line continuations, invalid UTF-8 in brackets; literally or through a template variable) in every field that is shell-expanded, globbed or run (task dir, include taskfile/dir, sources/generates, dotenv, status/preconditions/cmds, sh: variables), include-option combinations on multi-file inputs (excludes naming default / every task / a missing task, aliases clashing with task names, flatten, internal, a file with only a default task, a namespace equal to a task name), requests derived from every own name with '*' (stars removed, both sides overlapping, each side alone, the name itself, instantiated with '', 'x', ':'), include locations (.git URLs with/without //, http(s)://, empty, directories, self, ~, $VAR, templates), and/or 1-2 lexical mutations (CR, CRLF, NEL, LS/PS, mixed terminators, BOM, UTF-16, tabs, NUL, invalid UTF-8, truncation, splice of another corpus file, line duplication/deletion, indentation, punctuation, byte flips), synthetic pathological documents (20000-deep flow collections, alias expansion, anchor cycles, 1 MiB scalars, 2000-task dependency ring); 1 in 8 mutants is placed as the included file of a sane root. channel inproc: every input goes through a child process that links the repository (yaml.Unmarshal into ast.Taskfile, Executor.Setup, ListTasks plain+JSON, ListTaskNames, NAME=value assignments, GetTask/FastCompiledTask/CompiledTask for every task and generated request, Run with Dry) and journals '<input>:<stage>' before each call; a dead child is a violation attributed to the journal's last entry and the parent restarts after it. channel cli: the first inputs also go to the rebuilt CLI in 6+ invocations (--list-all, --list-all --json, <name>, --summary <name>, --dry <name>, one of the three with a generated request; NAME=value arguments added) under ulimit -v/-t with an empty PATH. violation: Go panic / fatal error / signal, exit status outside {0,1,50,100-110,200-207}, CPU limit (CPU time, not wall clock), memory limit, non-zero exit without any diagnostic. wall-clock watchdog = inconclusive. A case is one (input, invocation); non-trivial = the input is a mutant (differs from every corpus file) ; distinct by hash(project files, invocation)."
 
 var documented = func() map[int]bool {
 	m := map[int]bool{0: true, 1: true, 50: true}
@@ -313,6 +313,14 @@ func (rn *runner) cli(inputs []Input) {
 			req string
 		}
 		invs := []inv{{cliModes[0], ""}, {cliModes[1], ""}, {cliModes[2], name1}, {cliModes[3], name1}, {cliModes[4], name1}, {cliModes[2+r.Intn(3)], name2}}
+		// requests derived from the input's own names: a few of them, the modes rotating
+		nd := 0
+		for k, d := range in.Derived {
+			if cliOK(d) && len(d) < 1000 && nd < 4 && (len(in.Derived) <= 4 || r.Intn(len(in.Derived)) < 5) {
+				invs = append(invs, inv{cliModes[2+(k+nd)%3], d})
+				nd++
+			}
+		}
 		fh := filesHash(in)
 		for _, iv := range invs {
 			if iv.m.run && watch {
